@@ -240,13 +240,24 @@ func Audit(c *vh.Case, t *chainx.Tree, nd *chainx.Node, res string, before strin
 		}
 		// the tip state equals a linear replay of exactly the best chain
 		if t.AllValid(tid) {
-			tw := t.Twin(tid)
-			if !bytes.Equal(encState(tw), encState(nd)) {
+			// the state of a node that only saw that chain: recorded when the block was mined
+			// (B.Full), replayed otherwise
+			var lin consensus.State
+			if fb := t.Blocks[tid]; fb.Full.Index.ID == fb.Block.ID() {
+				lin = fb.Full
+			} else {
+				lin = t.Twin(tid).CM.TipState()
+			}
+			if !bytes.Equal(encFull(lin, false), encState(nd)) {
 				cls := "tip-state-differs-from-linear-replay"
-				if tainted && bytes.Equal(encStateNoAcc(tw), encStateNoAcc(nd)) {
+				if tainted && bytes.Equal(encFull(lin, true), encStateNoAcc(nd)) {
 					cls = "exp-order-after-mid-list-revert"
 				}
 				c.Oracle(cls, "TipState at %d differs from the state of a node that only saw that chain", tid)
+			}
+			// and its header-level fields agree with the reference computed without the store
+			if got, want := hdrFields(nd.CM.TipState()), hdrFields(t.Blocks[tid].State); got != want {
+				c.Oracle("tip-state-differs-from-reference", "TipState at %d has header-level fields %s, the reference is %s", tid, got, want)
 			}
 		}
 	} else {
@@ -453,11 +464,18 @@ func RunTreeModes(r *vh.Run, name string, t *chainx.Tree, sched [][]int, modes [
 // each more than 500 blocks long, with different block times (so that their difficulties differ
 // after the retarget), submitted in batches of a hundred in both orders.
 func runLong(r *vh.Run, rng *vh.RNG) {
-	for i := 0; i < r.Pick(2, 8); i++ {
+	type shape struct {
+		name string
+		oak  uint64
+		deep bool
+	}
+	shapes := []shape{{"pre-oak-fork", 50000, false}, {"oak-at-500", 500, false}, {"pre-oak-fork", 50000, false}, {"deep-away-and-back", 50000, true}}
+	for i := 0; i < r.Pick(4, 12); i++ {
+		sh := shapes[i%len(shapes)]
 		trng := rng.Fork()
-		net := chainx.NewPreOakNet(trng)
+		net := chainx.NewPreOakNetAt(trng, sh.oak)
 		var t *chainx.Tree
-		var mainLeaf, forkLeaf int
+		var sched [][]int
 		func() {
 			defer func() {
 				if x := recover(); x != nil {
@@ -469,27 +487,44 @@ func runLong(r *vh.Run, rng *vh.RNG) {
 				}
 			}()
 			t = chainx.NewTree(net)
-			mainLeaf = chainx.LongBranch(trng, t, 0, 503+trng.Intn(12), 10)
+			batches := func(ids []int) {
+				for k := 0; k < len(ids); k += 100 {
+					sched = append(sched, ids[k:min(k+100, len(ids))])
+				}
+			}
+			if sh.deep {
+				// a chain past the retarget at height 1500 (ancestor 1000 blocks back, not genesis), a
+				// longer fork that leaves it a few blocks below 1500 and wins, then the first chain
+				// grows and wins back: blocks around 1500 are applied a second time from the store
+				mainLeaf := chainx.LongBranch(trng, t, 0, 1502+trng.Intn(4), 10)
+				mp := t.PathFromRoot(mainLeaf)
+				at := mp[1493+trng.Intn(5)]
+				forkLeaf := chainx.LongBranch(trng, t, at, int(t.Blocks[mainLeaf].Height-t.Blocks[at].Height)+2+trng.Intn(3), 7)
+				backLeaf := chainx.LongBranch(trng, t, mainLeaf, int(t.Blocks[forkLeaf].Height-t.Blocks[mainLeaf].Height)+2+trng.Intn(3), 10)
+				batches(mp)
+				fp := t.PathFromRoot(forkLeaf)
+				batches(fp[t.Blocks[at].Height:])
+				bp := t.PathFromRoot(backLeaf)
+				batches(bp[t.Blocks[mainLeaf].Height:])
+				return
+			}
+			mainLeaf := chainx.LongBranch(trng, t, 0, 503+trng.Intn(12), 10)
 			// forking at genesis, the ancestor walk from the fork's 499th block never meets the best
 			// chain; one or two blocks later it meets it at its very end
 			at := 0
-			if i%2 == 1 {
+			if i%2 == 1 && sh.oak != 500 {
 				at = trng.Intn(3)
 			}
-			forkLeaf = chainx.LongBranch(trng, t, at, 503+trng.Intn(14)-at, 5+trng.Intn(4))
+			forkLeaf := chainx.LongBranch(trng, t, at, 503+trng.Intn(14)-at, 5+trng.Intn(4))
+			order := [][2]int{{mainLeaf, forkLeaf}, {forkLeaf, mainLeaf}}[trng.Intn(2)]
+			for _, leaf := range order {
+				batches(t.PathFromRoot(leaf))
+			}
 		}()
 		if t == nil {
 			continue
 		}
-		order := [][2]int{{mainLeaf, forkLeaf}, {forkLeaf, mainLeaf}}[trng.Intn(2)]
-		var sched [][]int
-		for _, leaf := range order {
-			path := t.PathFromRoot(leaf)
-			for k := 0; k < len(path); k += 100 {
-				sched = append(sched, path[k:min(k+100, len(path))])
-			}
-		}
-		RunTree(r, fmt.Sprintf("long%d/pre-oak-fork", i), t, sched)
+		RunTree(r, fmt.Sprintf("long%d/%s", i, sh.name), t, sched)
 	}
 }
 
